@@ -161,9 +161,36 @@ func objects2(r *vlib.Run) {
 		n := 2 + rng.Intn(6)
 		var parts []render3d.Object
 		desc := ""
+		// now and then every part is a flat axis-aligned tile in one plane (a floor): the bounding
+		// boxes of the parts, and of whole BVH branches, have zero thickness along one axis
+		flatAxis := -1
+		flatAt := float64(rng.Intn(5) - 2)
+		if rng.Intn(4) == 0 {
+			flatAxis = rng.Intn(3)
+			c.Count("objects.scene.flat_tile_scenes", 1)
+		}
 		for i := 0; i < n; i++ {
-			var o render3d.Object = &render3d.ColliderObject{Collider: model3d.MeshToCollider(randMesh(rng)), Material: &render3d.LambertMaterial{DiffuseColor: render3d.NewColor(float64(i))}}
+			mesh := randMesh(rng)
+			if flatAxis >= 0 {
+				u, v := (flatAxis+1)%3, (flatAxis+2)%3
+				lo := [3]float64{}
+				lo[flatAxis] = flatAt
+				lo[u], lo[v] = float64(i%3)*1.5+rng.Float64()*0.3, float64(i/3)*1.5+rng.Float64()*0.3
+				corner := func(du, dv float64) C3 {
+					a := lo
+					a[u] += du
+					a[v] += dv
+					return model3d.NewCoord3DArray(a)
+				}
+				mesh = model3d.NewMesh()
+				mesh.Add(&model3d.Triangle{corner(0, 0), corner(1, 0), corner(1, 1)})
+				mesh.Add(&model3d.Triangle{corner(0, 0), corner(1, 1), corner(0, 1)})
+			}
+			var o render3d.Object = &render3d.ColliderObject{Collider: model3d.MeshToCollider(mesh), Material: &render3d.LambertMaterial{DiffuseColor: render3d.NewColor(float64(i))}}
 			steps := rng.Intn(3)
+			if flatAxis >= 0 {
+				steps = 0
+			}
 			for s := 0; s < steps; s++ {
 				st := randStep(rng, true)
 				o = st.wrap(o)
